@@ -352,7 +352,13 @@ class StartStageHandler(
         # WCP-16: Deferred choice - check if a sibling already claimed this group
         # Query the database directly because retrieve_stage() only loads
         # upstreams, not siblings in the same deferred_choice_group.
-        if stage.deferred_choice_group and self._is_deferred_choice_claimed(stage):
+        # A stage that is already RUNNING here is the claimant being re-planned
+        # after a crash; the siblings it cancelled must not make it cancel itself.
+        if (
+            stage.deferred_choice_group
+            and stage.status == WorkflowStatus.NOT_STARTED
+            and self._is_deferred_choice_claimed(stage)
+        ):
             logger.info(
                 "Deferred choice: sibling in group '%s' already claimed, cancelling %s",
                 stage.deferred_choice_group,
